@@ -37,7 +37,11 @@ pub fn seal(mut bytes: Vec<u8>, key: &[u8], sha256: bool, trunc: usize) -> Vec<u
     let mac: Vec<u8> = if sha256 {
         let mut h = Hmac::<sha2::Sha256>::new_from_slice(key).unwrap();
         h.update(&bytes);
-        h.finalize().into_bytes()[..mac_len].to_vec()
+        let d = h.finalize().into_bytes();
+        // (lengths beyond the digest size are not legal encodings; pad so that such cases can be produced too)
+        let mut m = d[..mac_len.min(32)].to_vec();
+        m.resize(mac_len, 0xee);
+        m
     } else {
         let mut h = Hmac::<sha1::Sha1>::new_from_slice(key).unwrap();
         h.update(&bytes);
